@@ -148,7 +148,7 @@ pub fn run<K: Kmer + Send + Sync>(c: &GCase) -> Outcome {
                 let want: Vec<Vec<EdgeV>> = (0..4u8).map(|b| idx.answers(&ext_str(gv.term(i, side), side, b), side)).filter(|a| !a.is_empty()).collect();
                 let got = gv.nodes[i].edges(side);
                 o.transitions += 1;
-                if got.len() != want.len() || got.iter().zip(want.iter()).any(|(e, a)| !a.contains(e)) {
+                if !vglue::oracles::match_edges(got, &want) {
                     o.fail("wrong-edge", format!("[handbuilt] node {} = {} side {:?}: edges {:?}, acceptable {:?}", i, ascii(&gv.nodes[i].seq), side, got, want));
                 }
             }
